@@ -151,6 +151,9 @@ class HTTPReader:
         # if it matches continue and decompress
         # if current server setting is any, use whatever client has provided in content-encoding header
         actual_enc = http_message.headers.get('content-encoding')
+        if actual_enc and hasattr(http_message.headers, 'get_all'):
+            # repeated header lines are one list (RFC 7230 3.2.2): "gzip" + "gzip" is a body that was coded twice
+            actual_enc = ', '.join(http_message.headers.get_all('content-encoding'))
         if actual_enc:
             supported_encs = supported_encodings or CompressionHandler.available_encodings
             if actual_enc not in supported_encs:
